@@ -1,5 +1,6 @@
 import Mimic.Variables
 import Mimic.Extracted.Variables
+import Mimic.Extracted.VariablesCode
 import MimicProofs.Variables
 /-!
 # C14 — System variables form a typed, scoped store that clients cannot corrupt
@@ -100,6 +101,38 @@ theorem unknown_is_error (sch : List Schema) (cs : List String) (force : Bool) (
 theorem get_default (sch : List Schema) (name : String) (s : Schema) (hs : findSchema sch (lower name) = some s) :
     get sch [] name = .ok s.dflt := by
   unfold Mimic.Variables.get; simp [List.lookup, hs]
+
+/-- **`Variables.set` / `get` / `list` as translated from the source are the model's functions**, for every schema,
+    store, name, value and `force` (the five type callables are modelled by `coerce`) -/
+theorem store_is_code (sch : List Schema) (cs : List String) (st : Store) (name : String) (a : Arg) (force : Bool) (names : List String) :
+    Mimic.Extracted.VariablesCode.set sch cs st name a force = set sch cs force st name a ∧
+    Mimic.Extracted.VariablesCode.get sch st name = get sch st name ∧
+    Mimic.Extracted.VariablesCode.list sch st names = list sch st names := by
+  have hget : ∀ n, Mimic.Extracted.VariablesCode.get sch st n = get sch st n := by
+    intro n
+    simp only [Mimic.Extracted.VariablesCode.get, Mimic.Variables.get, Mimic.Extracted.VariablesCode.get_schema]
+    cases h1 : st.lookup (lower n) with
+    | some v => rfl
+    | none =>
+      cases h2 : findSchema sch (lower n) <;> rfl
+  refine ⟨?_, hget name, ?_⟩
+  · simp only [Mimic.Extracted.VariablesCode.set, Mimic.Variables.set, Mimic.Extracted.VariablesCode.get_schema]
+    cases hs : findSchema sch (lower name) with
+    | none => rfl
+    | some s =>
+      simp only
+      by_cases hg : (!s.dynamic && !force) = true
+      · simp [hg]
+      · simp only [hg, Bool.false_eq_true, if_false]
+        cases a with
+        | dflt => rfl
+        | complex => rfl
+        | val v => cases v <;> rfl
+  · unfold Mimic.Extracted.VariablesCode.list Mimic.Variables.list
+    congr 1
+    funext n
+    rw [hget n]
+    cases Mimic.Variables.get sch st n <;> rfl
 
 /-! ### read-only variables -/
 
